@@ -238,3 +238,4 @@ MANIFEST = {
             'simulated, real time-outs/crashes are not provoked); the harness-owned clock.',
 }
 MANIFEST['text'] += (' ' + 'Limits include 0, 0.0 and 2.5; a sixth fault kind is Not Solved without the clock being advanced; 35% of the cases first do a fault-free solve and a round of getters on the same object; threads is drawn in {None, 1, 2, 4}; fault-free runs that exceed their limit are checked too.')
+MANIFEST['text'] += (' ' + 'A seventh injected outcome is the back end raising PulpSolverError (oracle: the exception reaches the caller, or no matching is presented); up to 40 plans per case have a bystander Solver (same file, same or other options, or a sibling instance) solved and read between the faulted solve and the reading of its results.')
